@@ -114,7 +114,8 @@ def run(ctx):
   # "re-running checks never clears a recorded factor": AttachFactors merges with what is already recorded (shared with C01)
   from . import c01
   ctx.borrow(c01.rule_merge, "R-C16-MONO")
-  ctx.expect("R-C16-ONCE", 24, "24 Check bodies")
+  T.rule_all_curves(ctx, "R-C16-ONCE")          # an artifact on a curve the loop never reaches gets no entry at all
+  ctx.expect("R-C16-ONCE", 28, "24 Check bodies + 4 loops over the curve table")
   ctx.expect("R-C16-PAIR", 24, "24 Check bodies")
   ctx.expect("R-C16-SEVERITY", 29 + 9 + 1, "29 registered classes + 9 README rows + GetHighestSeverity")
   ctx.expect("R-C16-MONO", 10, "six clauses of SetTestResult/AttachInfo + three of AttachFactors")
